@@ -18,24 +18,22 @@ func lockInodes(op *fstxn.FsTxn, inums []common.Inum) []*inode.Inode {
 	util.DPrintf(1, "lock inodes %v\n", inums)
 	sorted := make([]common.Inum, len(inums))
 	copy(sorted, inums)
-	sort.Slice(sorted, func(i, j int) bool { return inums[i] < inums[j] })
-	var inodes = make([]*inode.Inode, len(inums))
+	sort.Slice(sorted, func(i, j int) bool { return sorted[i] < sorted[j] })
 	for _, inm := range sorted {
+		if op.OwnInum(inm) {
+			// the same number more than once: it is locked already
+			continue
+		}
 		ip := op.GetInodeInum(inm)
 		if ip == nil {
 			op.Abort()
 			return nil
 		}
-		// put in same position as in inums
-		pos := func(inm common.Inum) int {
-			for i, v := range inums {
-				if v == inm {
-					return i
-				}
-			}
-			panic("func")
-		}(inm)
-		inodes[pos] = ip
+	}
+	// put in same position as in inums
+	var inodes = make([]*inode.Inode, len(inums))
+	for i, inm := range inums {
+		inodes[i] = op.GetInodeUnlocked(inm)
 	}
 	return inodes
 }
